@@ -49,6 +49,9 @@ type Req struct {
 type History struct {
 	Steps []Req  `json:"steps"`
 	Tag   string `json:"tag,omitempty"`
+	// Skip: the first Skip steps are executed but not logged (a prelude that another history of the same
+	// run logs step by step); a "base" line then carries the state reached, on which the judge synchronises
+	Skip int `json:"skip,omitempty"`
 }
 
 type pNode struct {
@@ -214,7 +217,9 @@ func metaLeaves(md map[string]any) [][]int {
 	return out
 }
 
-// ProjectApp projects a live application through its instance (no evaluation unless arts).
+// ProjectApp projects a live application: node table, wiring, producers and metadata as App.Schema()
+// describes them (the cheap description: Instance.Schema() also instantiates every registered type), parameter
+// names / descriptions / values from the live nodes. No evaluation unless arts.
 func ProjectApp(app *generator.App, arts bool) (p Proj) {
 	p = emptyProj()
 	defer func() {
@@ -223,14 +228,33 @@ func ProjectApp(app *generator.App, arts bool) (p Proj) {
 		}
 	}()
 	inst := app.VerifGraph()
-	sch := inst.Schema()
-	ids := make([]string, 0, len(sch.Nodes))
-	for id := range sch.Nodes {
+	var doc struct {
+		Data struct {
+			Producers map[string]struct {
+				NodeID string `json:"nodeID"`
+				Port   string `json:"port"`
+			} `json:"producers"`
+			Nodes map[string]struct {
+				Type         string `json:"type"`
+				Dependencies []struct {
+					DependencyID string `json:"dependencyID"`
+					Name         string `json:"name"`
+				} `json:"dependencies"`
+			} `json:"nodes"`
+			Metadata map[string]any `json:"metadata"`
+		} `json:"data"`
+	}
+	if err := json.Unmarshal(app.Schema(), &doc); err != nil {
+		p.Unknown += 1000
+		return p
+	}
+	ids := make([]string, 0, len(doc.Data.Nodes))
+	for id := range doc.Data.Nodes {
 		ids = append(ids, id)
 	}
 	sort.Slice(ids, func(i, j int) bool { return nodeNumStrict(ids[i]) < nodeNumStrict(ids[j]) })
 	for _, id := range ids {
-		ni := sch.Nodes[id]
+		ni := doc.Data.Nodes[id]
 		t, ok := graphfam.GETypeId(ni.Type)
 		if !ok || nodeNumStrict(id) < 0 {
 			p.Unknown++
@@ -252,7 +276,7 @@ func ProjectApp(app *generator.App, arts bool) (p Proj) {
 		projectDeps(&p, &n, deps)
 		p.Nodes = append(p.Nodes, n)
 	}
-	for name, pr := range sch.Producers {
+	for name, pr := range doc.Data.Producers {
 		f := graphfam.GEStrInv("file", strings.TrimSuffix(name, ".txt"))
 		if f <= 0 || !strings.HasSuffix(name, ".txt") {
 			p.Unknown++
@@ -264,12 +288,6 @@ func ProjectApp(app *generator.App, arts bool) (p Proj) {
 		p.Prod = append(p.Prod, []int{f, k})
 	}
 	sort.Slice(p.Prod, func(i, j int) bool { return p.Prod[i][0] < p.Prod[j][0] })
-	var doc struct {
-		Data struct {
-			Metadata map[string]any `json:"metadata"`
-		} `json:"data"`
-	}
-	_ = json.Unmarshal(app.Schema(), &doc)
 	p.Meta = metaLeaves(doc.Data.Metadata)
 	p.Cyc = detectCycle(&p)
 	if arts && !p.Cyc {
@@ -818,6 +836,20 @@ func RunHistories(in, out string, base int) error {
 			ln.R = r
 			if err := s.do(r, &ln); err != nil {
 				return fmt.Errorf("history %d step %d: %w", h, i, err)
+			}
+			if i < hist.Skip {
+				s.view = ProjectApp(s.app, false)
+				if i == hist.Skip-1 {
+					bl := newLine("base", h, i)
+					s.observe(&bl)
+					if app2, loaded := reloadApp(s.lastGet); loaded { // the graph a POST /graph would send
+						bl.Rg = ProjectApp(app2, false)
+					} else {
+						bl.Rg.Unknown = 1000
+					}
+					_ = enc.Encode(bl)
+				}
+				continue
 			}
 			s.observe(&ln)
 			_ = enc.Encode(ln)
